@@ -170,7 +170,15 @@ func (e *Exec) callBuiltin(st *State, name string, args []Value, byDefer bool, s
 		return ret(st, acc)
 	case "close":
 		if e.conc == nil {
-			fail("close(chan) in sequential mode")
+			ch := args[0].(ChanRef)
+			if ch.Obj == 0 {
+				return e.panicOut(st, e.runtimeError("close of nil channel"), "close of nil channel", site)
+			}
+			if o, ok := e.objContent(st, ch.Obj).(*Opaque); ok && o.Desc == "closed chan" {
+				return e.panicOut(st, e.runtimeError("close of closed channel"), "close of closed channel", site)
+			}
+			st.Heap[ch.Obj] = &Opaque{"closed chan"}
+			return ret(st)
 		}
 		return e.conc.closeChan(e, st, args[0].(ChanRef), site)
 	case "ssa:wrapnilchk":
